@@ -272,12 +272,17 @@ Definition const_too_big (o : sop) : bool := match o with SConst k => negb (in_s
 Definition no_pattern (o : sop) : bool :=
   match o with SBin b _ _ => match lookup_binop b with None => true | Some _ => false end | _ => false end.
 
-Definition rejects (p : sprog) : bool :=
+Definition is_mul (o : sop) : bool := match o with SBin BMul _ _ => true | _ => false end.
+Definition is_w8 (w : width) : bool := match w with W8 => true | _ => false end.
+
+(* rej8: ArithBinaryToX86 refuses muli on 8-bit integers when it visits one it would lower (repair C21-3) *)
+Definition rejects_v (rej8 : bool) (p : sprog) : bool :=
   let n := sp_nargs p in
   let s1 := survive1 n (sp_ops p) (sp_ret p) in
   let l2 := lowered2 n (sp_ops p) s1 (sp_ret p) in
   existsb (fun x => snd x && const_too_big (fst x)) (combine (sp_ops p) l2)
-  || existsb (fun x => snd x && no_pattern (fst x)) (combine (sp_ops p) (live_flags p)).
+  || existsb (fun x => snd x && no_pattern (fst x)) (combine (sp_ops p) (live_flags p))
+  || (rej8 && is_w8 (sp_w p) && existsb (fun x => snd x && is_mul (fst x)) (combine (sp_ops p) l2)).
 
 (* dead ops leave no trace: for the kernel they are replaced by a harmless constant *)
 Definition neutralize (p : sprog) : sprog :=
@@ -286,8 +291,9 @@ Definition neutralize (p : sprog) : sprog :=
           (sp_ret p).
 
 (* the x86 IR handed to the register allocator *)
-Definition c21_lower (p : sprog) : option vfunc :=
-  if rejects p then None else lower_strict (neutralize p).
+Definition c21_lower_v (rej8 : bool) (p : sprog) : option vfunc :=
+  if rejects_v rej8 p then None else lower_strict (neutralize p).
+Definition c21_lower (p : sprog) : option vfunc := c21_lower_v c21_rejects_imul8 p.
 
 (* --- after allocation ----------------------------------------------------------------------- *)
 
